@@ -54,6 +54,41 @@ Theorem pad_rejects (x : tt R) k v hd_ pds : (length x <? length pds)%nat = true
   apply_op OPad [VT x; VS k v] (hd_ :: pds) = VErr EArgs.
 Proof. intros H. unfold apply_op. cbn [tl]. rewrite map_length, H. reflexivity. Qed.
 
+(* cat: axis out of range, an operand of another order, or mode sizes differing off the axis *)
+Theorem cat_rejects (x : tt R) (l : list (tt R)) dim :
+  (dim <? length x)%nat && forallb (fun t => Nat.eqb (length t) (length x) && eqb_ln (upd dim 0 (shape t)) (upd dim 0 (shape x))) l = false ->
+  apply_op OCat (VT x :: map (@VT R) l) [[dim]] = VErr EArgs.
+Proof.
+  intros H. unfold apply_op.
+  assert (E : fold_right (fun v acc => match v, acc with VT t, Some l0 => Some (t :: l0) | _, _ => None end) (Some []) (map (@VT R) l) = Some l).
+  { clear. induction l as [|t l IH]; cbn [map fold_right]; [reflexivity|]. rewrite IH. reflexivity. }
+  rewrite E, H. reflexivity.
+Qed.
+(* pad of a TT matrix with more paddings than modes *)
+Theorem pad_ttm_rejects (x : ttm R) k v hd_ pds : (length x <? length pds)%nat = true ->
+  apply_op OPad [VM x; VS k v] (hd_ :: pds) = VErr EArgs.
+Proof. intros H. unfold apply_op. cbn [tl]. rewrite map_length, H. reflexivity. Qed.
+(* .t() of a TT tensor *)
+Theorem transpose_tt_rejects (x : tt R) ia : apply_op OTr [VT x] ia = VErr EArgs.
+Proof. reflexivity. Qed.
+(* x * t for a torch tensor t with more than one dimension-less element (only 0-d / one-element tensors are scalars) *)
+Theorem mul_tensor_rejects (x : tt R) (t : dense R) ia : dshape t <> [] ->
+  apply_op OMul [VT x; VD t] ia = VErr EArgs /\ apply_op ORMul [VT x; VD t] ia = VErr EArgs.
+Proof. intros H. unfold apply_op. destruct (dshape t); [congruence|]. split; reflexivity. Qed.
+(* dot with a TT matrix operand is not implemented *)
+Theorem dot_ttm_rejects (A : ttm R) (v : val R) ia :
+  apply_op ODot [VM A; v] ia = VErr ENotImpl /\ (forall x : tt R, apply_op ODot [VT x; VM A] ia = VErr ENotImpl).
+Proof. split; [destruct v; reflexivity|intros x; reflexivity]. Qed.
+(* indexing: two Ellipsis; an int or slice given bare to a tensor of order > 1; a bare None *)
+Theorem getitem_rejects (x : tt R) ix :
+  ((1 <? length (filter is_ell ix))%nat = true -> getitem_tuple x ix = GE ENotImpl) /\
+  (forall c1 c2 t it, x = c1 :: c2 :: t -> it <> IEll -> getitem_single x it = GE EArgs).
+Proof.
+  split.
+  - intros H. unfold getitem_tuple. rewrite H. reflexivity.
+  - intros c1 c2 t it Hx Hit. subst x. destruct it; try reflexivity. congruence.
+Qed.
+
 End GuardsP.
 
 (* the constructor from a core list: broken chaining, mixed 3-d / 4-d cores, boundary ranks other than 1, empty list *)
